@@ -35,14 +35,15 @@ type gor struct {
 }
 
 type sched struct {
-	gors     []*gor
-	cur      *gor
-	killed   bool
-	live     sync.WaitGroup // host goroutines of this path
-	abort    interface{}    // panic value of a goroutine, re-raised on the main one
-	choices  int
-	yields   int // vYield calls so far on this path
-	preempts int // preemptions taken so far
+	gors       []*gor
+	cur        *gor
+	killed     bool
+	live       sync.WaitGroup // host goroutines of this path
+	abort      interface{}    // panic value of a goroutine, re-raised on the main one
+	choices    int
+	selChoices int
+	yields     int // vYield calls so far on this path
+	preempts   int // preemptions taken so far
 }
 
 func (i *interpreter) scheduler() *sched {
